@@ -24,6 +24,9 @@ CHECKS = {
  "C10": dict(engine="job", technique="TLC model checking of JobTask.tla (PriorityOrder) + TLC trace monitor (MonC10) over repeated runs",
    text="TLC checks that no control is taken from a lower-priority queue while a higher one is non-empty, for every queue content at the time the task looks; the monitor replays the queue discipline on recorded dequeue events (FIFO per priority, urgent > high > normal, each sent control executed exactly once); every script is repeated because tokio's select! is random per run.",
    ref="4.1, 6 C10"),
+ "C20": dict(engine="pure", technique="TLA+ decision spec (Origins.tla) checked and enumerated by TLC; every case replayed on real directory trees",
+   text="Origins.tla holds the documented marker table, the declarative IsOrigin/TypesOf and the VCS/software-suite partition; TLC checks that the ancestor walk equals the declarative definition and that every reported type lies in exactly one category, and enumerates every marker with the right and the wrong node type plus all chains up to the bound; each enumerated case is materialised as a real directory chain and origins()/types()/is_vcs()/is_soft() must answer as the spec does.",
+   ref="6 C20", note="Trusted: TLC; the marker table and classification in Origins.tla (transcribed from the crate documentation) are the reference. Ancestors above the scratch root are outside the universe."),
 }
 
 def main():
@@ -52,7 +55,9 @@ def main():
                         baseline_off_cmd="cd /repo && (cargo nextest run --workspace --no-fail-fast --test-threads 8 --offline || cargo test --workspace --no-fail-fast --offline)",
                         source_commits=src, add_only=True),
              engines=[dict(name="job", path="tools/jobcheck.py", serves_properties=["C04", "C06", "C07", "C09", "C10"],
-                           kind_free_text="JobTask.tla model checking + job_driver (virtual time, simulated child) + TLC trace validation / monitors")],
+                           kind_free_text="JobTask.tla model checking + job_driver (virtual time, simulated child) + TLC trace validation / monitors"),
+                      dict(name="pure", path="tools/purecheck.py", serves_properties=[p for p in CHECKS if CHECKS[p]["engine"] == "pure"],
+                           kind_free_text="decision specs in spec/pure: TLC checks the laws and enumerates (case, expected answer); pure_runner replays every case on the real crates")],
              checks=checks,
              notes="Model-based verification with explicit TLA+ specifications; see DESIGN.md. Exit 2 = tool error.",
              not_applicable=na)
